@@ -39,6 +39,9 @@ ASSUMPTIONS = [
   "no 'random larger' graphs: the quantifier's random part is replaced by exhaustive T<=4",
   "flex rows (generic path through negative geom ids) are not generated here",
   "CPU backend only; MuJoCo C 3.13 mj_island as third oracle",
+  "Data is first made with make_data's default capacities; if MJWarp's constraint rows (type, id) then differ from MuJoCo's "
+  "(rows lost to a too small default njmax_nnz) that is reported under efc_rows_differ_from_mujoco:* and the island checks are "
+  "redone with njmax_nnz = 64*nv",
 ]
 BUDGET = {"quick": 400, "thorough": 3000}
 
